@@ -1,2 +1,4 @@
 import XV.Model.Safety
 import XV.Props.C14
+import XV.Model.Chain
+import XV.Model.Ledger
